@@ -329,6 +329,47 @@ def check_marked_forms(ctx, kind, m, rng):
             ctx.fail(f'adaptive-one-marked:{cname}', f'refined({mk!r}) differs from refined(np.array([{k}]))', data)
 
 
+def check_theta(ctx, kind, m, rng):
+    """utils.adaptive_theta with exactly ONE cell above the threshold (and with none): the result is a 1-d index array and
+    refined(adaptive_theta(est, theta)) subdivides exactly what refined(np.array([k])) subdivides"""
+    from skfem.utils import adaptive_theta
+    cname = type(m).__name__
+    nt = m.t.shape[1]
+    k = int(rng.integers(0, nt))
+    est = np.full(nt, 0.25)
+    est[k] = 4.0
+    for label, mk in (('default-max', lambda: adaptive_theta(est, 0.5)), ('explicit-max', lambda: adaptive_theta(est, 0.5, max=4.0)),
+                      ('theta', lambda: adaptive_theta(est, theta=0.75))):
+        data = case_data(kind, m, marked=[k], estimator=est.tolist(), form=label, label='adaptive-theta-single')
+        ctx.count(('theta-single', cname, label, m.t.tolist(), k), nontrivial=nt >= 2)
+        try:
+            marked = mk()
+        except Exception as e:
+            ctx.fail('adaptive_theta-single-hit', f'adaptive_theta raised {type(e).__name__}: {e}', data)
+            continue
+        if np.ndim(marked) != 1 or [int(v) for v in np.atleast_1d(marked)] != [k]:
+            ctx.fail('adaptive_theta-single-hit', f'adaptive_theta with one cell ({k}) above the threshold returned {marked!r} '
+                     f'(ndim {np.ndim(marked)}), not the index array [{k}]', data)
+        try:
+            ra = m.refined(marked)
+            rb = m.refined(np.array([k], dtype=np.int64))
+        except Exception as e:
+            ctx.fail(f'adaptive_theta-single-hit:{cname}', f'refined(adaptive_theta(...)) raised {type(e).__name__}: {e}', data)
+            continue
+        if not (ra.p.shape == rb.p.shape and np.array_equal(ra.p, rb.p) and np.array_equal(ra.t, rb.t)):
+            ctx.fail(f'adaptive_theta-single-hit:{cname}',
+                     f'refined(adaptive_theta(est)) with only cell {k} above the threshold does not subdivide that cell and its '
+                     f'closure: {ra.t.shape[1]} cells instead of {rb.t.shape[1]}', data)
+    # no cell above the threshold: an empty 1-d selection, the mesh is returned unchanged
+    try:
+        none = adaptive_theta(est, 0.5, max=100.0)
+        r0 = m.refined(none)
+        if np.ndim(none) != 1 or len(none) != 0 or r0.t.shape != m.t.shape:
+            ctx.fail('adaptive_theta-no-hit', f'adaptive_theta with no cell above the threshold returned {none!r}', case_data(kind, m))
+    except Exception as e:
+        ctx.fail('adaptive_theta-no-hit', f'{type(e).__name__}: {e}', case_data(kind, m))
+
+
 def all_subsets(n):
     for k in range(n + 1):
         for c in itertools.combinations(range(n), k):
@@ -387,6 +428,10 @@ def run_oracle(ctx):
                     nt = cur.t.shape[1]
                     if rng.random() < 0.3:
                         marked = adaptive_theta(rng.random(nt), theta=float(rng.choice([0.3, 0.5, 0.8])))
+                        if np.ndim(marked) != 1:
+                            ctx.fail('adaptive_theta-single-hit', f'adaptive_theta returned an array of dimension {np.ndim(marked)}: '
+                                     f'{marked!r}', {'nt': nt})
+                            break
                         if len(marked) == 0 or marked.max() >= nt:
                             ctx.fail('adaptive_theta-empty', 'adaptive_theta returned no or invalid cells', {'nt': nt})
                             break
@@ -423,8 +468,11 @@ def run_oracle(ctx):
             g = small_mesh(kind, rng, 6, ntmin=2)
             m1 = gm.build(kind, g['p'], g['t'], g.get('sort_t'))
             check_marked_forms(ctx, kind, m1, rng)
+            check_theta(ctx, kind, m1, rng)
             if kind != 'line':
-                check_marked_forms(ctx, kind, gm.skfem_cls(kind, 2).from_mesh(m1), rng)
+                m2 = gm.skfem_cls(kind, 2).from_mesh(m1)
+                check_marked_forms(ctx, kind, m2, rng)
+                check_theta(ctx, kind, m2, rng)
     # (c'') point arrays with points that belong to no cell (appended directly / made by `m @ far_copy`), every class
     for kind in ('line', 'tri', 'tet'):
         for i in range(ctx.n(4, 10)):
@@ -514,16 +562,51 @@ def run(ctx):
         ctx.corr('tet_loop', TET_IMPORTS, 'run', 'out_eqb', tc, defs=TET_DEFS, per_file=(len(tc) + 3) // 4,
                  nontrivial=lambda r: r['sweeps'] >= 2)
         ctx.extra['tet_loop_sweeps'] = {str(k): sum(1 for c in tc if c[2]['sweeps'] == k) for k in sorted({c[2]['sweeps'] for c in tc})}
+    if dyn_ok:
+        from skfem.utils import adaptive_theta
+        rng2 = np_seed(ctx, 133)
+        tcases = []
+        for _ in range(ctx.n(40, 200)):
+            n = int(rng2.integers(1, 9))
+            est = rng2.integers(0, 33, size=n) / 8.0
+            if rng2.random() < 0.4:                       # exactly one (or no) value above the threshold
+                est = np.full(n, 0.25)
+                est[int(rng2.integers(0, n))] = 4.0
+            theta = float(rng2.choice([0.25, 0.5, 0.75, 1.0]))
+            mx = None if rng2.random() < 0.6 else float(rng2.choice([1.0, 2.0, 4.0, 64.0]))
+            got = adaptive_theta(est, theta, max=mx)
+            if np.ndim(got) != 1:
+                ctx.fail('adaptive_theta-single-hit', f'adaptive_theta returned an array of dimension {np.ndim(got)}: {got!r}',
+                         {'estimator': est.tolist(), 'theta': theta, 'max': mx})
+                continue
+            q = lambda x: '(%d # %d)%%Q' % (Fraction(float(x)).numerator, Fraction(float(x)).denominator)
+            inp = '(%s, %s, %s)' % (clist([q(x) for x in est]), q(theta), 'None' if mx is None else f'(Some {q(mx)})')
+            tcases.append((inp, cnats([int(v) for v in got]), {'est': est.tolist(), 'theta': theta, 'max': mx, 'hits': len(got)}))
+        ctx.corr('adaptive_theta', 'From Coq Require Import List Arith Bool ZArith QArith.\nRequire Import Model.C12_Refine Model.C13_Adaptive Gen.C13Gen.',
+                 '(fun x : list Q * Q * option Q => gen_theta_select (fst (fst x)) (snd (fst x)) (snd x))', 'nats_eqb', tcases,
+                 per_file=max(1, len(tcases)), nontrivial=lambda r: r['hits'] == 1)
     run_oracle(ctx)
 
 
 def replay(ctx, data):
     inp = data['input']
-    kind = inp['kind']
     ctx.log('replaying', data.get('key'))
+    if str(data.get('key', '')).startswith('adaptive_theta') and 'kind' not in inp:
+        import skfem
+        rng = np.random.default_rng(0)
+        for kind, m in (('line', skfem.MeshLine().refined(2)), ('tri', skfem.MeshTri().refined(1)), ('tet', skfem.MeshTet())):
+            check_theta(ctx, kind, m, rng)
+        return
+    kind = inp['kind']
     kw = {'sort_t': inp['sort_t']} if kind == 'tri' else {}
     order = inp.get('order', 1)
     P = np.array(inp['p'], dtype=np.float64)
+    if inp.get('label') == 'adaptive-theta-single':
+        m = gm.skfem_cls(kind, 1)(P[:, :int(np.max(inp['t'])) + 1] if order == 2 else P, np.array(inp['t'], dtype=np.int32), **kw)
+        if order == 2:
+            m = gm.skfem_cls(kind, 2).from_mesh(m)
+        check_theta(ctx, kind, m, np.random.default_rng(0))
+        return
     if inp.get('label') in ('empty-marked', 'one-element-marked', 'boolean-mask'):
         m = gm.skfem_cls(kind, 1)(P[:, :int(np.max(inp['t'])) + 1] if order == 2 else P, np.array(inp['t'], dtype=np.int32), **kw)
         if order == 2:
